@@ -74,11 +74,19 @@ class Ctx:
 
     # ---------- harness ----------
     def build(self, tags="verif", race=False, pkg="./cmd/vh", out=None):
-        out = out or os.path.join(self.tmp, "vh" + ("-race" if race else "") + ("-" + tags.replace(",", "_") if tags != "verif" else ""))
+        """builds a harness command against REPO's current working tree; cached per (pkg, tags, race) within this check run"""
+        nm = os.path.basename(pkg) + ("-race" if race else "") + ("-" + tags.replace(",", "_") if tags != "verif" else "")
+        out = out or os.path.join(self.tmp, nm)
         if os.path.exists(out):
             return out
         shutil.copyfile(os.path.join(REPO, "go.sum"), os.path.join(HARNESS, "go.sum"))
         cmd = [go_bin(), "build", "-tags", tags, "-o", out]
+        if REPO != "/repo":   # checks can be pointed at a scratch worktree: VERIF_REPO=/tmp/wt ./check Cxx
+            mf = os.path.join(self.tmp, "go.alt.mod")
+            txt = open(os.path.join(HARNESS, "go.mod")).read().replace("=> /repo", "=> " + REPO)
+            open(mf, "w").write(txt)
+            shutil.copyfile(os.path.join(REPO, "go.sum"), os.path.join(self.tmp, "go.alt.sum"))
+            cmd += ["-modfile", mf]
         if race:
             cmd.append("-race")
         cmd.append(pkg)
@@ -86,7 +94,7 @@ class Ctx:
         p = subprocess.run(cmd, cwd=HARNESS, env=go_env(), capture_output=True, text=True, timeout=1500)
         if p.returncode != 0:
             raise Broken("harness build failed:\n" + p.stderr[-3000:])
-        log("built %s in %.1fs" % (os.path.basename(out), time.time() - t))
+        log("built %s in %.1fs" % (nm, time.time() - t))
         return out
 
     def run_vh(self, driver, args, binary=None, timeout=3000, env=None):
@@ -195,7 +203,7 @@ class Ctx:
             m2 = re.search(r"(\d+) states checked", text)
             gen = states = int(m2.group(1)) if m2 else 0
         md = re.search(r"depth of the complete state graph search is (\d+)", text)
-        violated = rc in (11, 12, 13)
+        violated = rc in (11, 12, 13) or (rc == 10 and "Postcondition" in text)
         run = {"name": name, "module": module, "states": states, "transitions": gen, "depth": int(md.group(1)) if md else None,
                "behaviours": nb, "wall_s": round(time.time() - t, 1), "mode": "simulate" if simulate else "bfs"}
         self.cov["tlc_runs"].append(run)
@@ -210,7 +218,19 @@ class Ctx:
             raise Broken("TLC error on %s (rc=%s):\n%s" % (name, rc, text[-2500:]))
         run["violated"] = violated
         run["tail"] = text[-1500:] if violated else ""
+        m = re.search(r'"REJECTED_AT", (\d+)', text)
+        run["rejected_at"] = int(m.group(1)) if m else None
         return run
+
+    def tlc_validate(self, module, cfg_text, trace_file, name=None, timeout=1700):
+        """Trace validation (code -> spec): the trace spec reads IOEnv.TRACE_FILE with ndJsonDeserialize and
+        has `POSTCONDITION TraceAccepted`, where TraceAccepted prints <<"REJECTED_AT", l>> (l = 1-based index of
+        the first trace line no behaviour of the spec explains) before being FALSE.
+        Returns (accepted, rejected_at, run)."""
+        run = self.tlc(module, cfg_text, name=name or (module + "_validate"), workers=1, timeout=timeout,
+                       env={"TRACE_FILE": trace_file}, java_opts="-Dtlc2.tool.queue.IStateQueue=StateDeque",
+                       allow_violation=True)
+        return (not run["violated"]), run.get("rejected_at"), run
 
     # ---------- verdict ----------
     def finish(self, level, level_rule, assumptions=None, exhaustive=None):
